@@ -99,7 +99,7 @@ fn main() {
     let mut sum = Summary::new("C03", &args, "one evaluation = one power-loss survivor (crash prefix of the recorded syscall stream × choice of surviving un-fsynced writes / torn last write / directory version) reopened by the real Memvid::open and judged against the acknowledged-operations reference; distinct_nontrivial = distinct surviving images");
     let known: Vec<String> = args.extra.get("known").map(|s| s.split(',').map(|x| x.to_string()).collect()).unwrap_or_default();
     let scratch = scratch_dir("c03");
-    let verbose = args.extra.contains_key("verbose");
+    let verbose = args.extra.contains_key("verbose") || args.mode == "replay";
     let only = args.extra.get("only").cloned();
     let mut drv: Option<Driver> = if args.driver.as_os_str() == "none" { None } else { Some(Driver::spawn(&args.driver).expect("driver")) };
     let mut rng = XRng(args.seed ^ 0xc03);
@@ -210,6 +210,7 @@ fn main() {
             if !v.ok {
                 bad += 1;
                 v.signature = v.signature.replace("after-crash", "after-power-loss");
+                v.what = v.what.replace("a process crash inside", "a power loss during").replace("after a crash inside", "after a power loss during");
                 let acked_idle = infl == "idle" || !matches!(infl.as_str(), "create");
                 let _ = acked_idle;
                 let case = json!({"history": history, "name": name, "crash_prefix": k, "choice": ch, "inflight": infl,
